@@ -29,14 +29,22 @@ Covers every data type `build_builder` accepts, at any nesting — including Utf
              `Dictionary(Int8, Date32)`; R1 and the physical half cover those, the content statement R2 does not)
   `hsafe`    `Safe` (schema: no dictionary with non-nullable keys below a nullable struct / fixed-size list, no
              dictionary-keyed dictionary — `dict_placeholder_unstable`)
-  `hraw`     `noRaw`: no raw `serialize_key`/`serialize_value` call streams inside the records
+  `hraw`     `structStreamsAlternate`: every raw `serialize_key`/`serialize_value` call stream inside the records
+             alternates key, value, key, value … (decidable; `= !Spec.containsMalformed`).  Map columns refuse all
+             other streams (`map_refuses_non_alternating`); struct positions ACCEPT them and the documentation gives
+             them no meaning, so the exclusion is needed there (`struct_stream_needed`; what is stored instead:
+             `struct_raw_stored`)
+  `hnar`     only when some record contains a raw stream at all: every struct level of the schema (the root included)
+             has fewer than `usize::MAX` fields (`narrowRoot`; the struct builder's "unknown key" sentinel — true of
+             every Rust `Vec`, not enforced by the model's unbounded lists)
 (No size hypothesis: the view builders refuse lengths and buffer offsets beyond `i32::MAX`, so a descriptor never
 truncates — `viewPushValue_ok`, `view_value_exact`, `WFB_small`.) -/
 theorem C01_build_decode (ext : Ext) (fields : List Field) (rows : List SVal) (arrs : List Arr)
     (hschema : ∀ f ∈ fields, Lemmas.C03.SchemaOKF f)
     (hcov : fields.all Build.coveredF = true)
     (hsafe : ∀ root0, newRoot fields = .ok root0 → Safe root0)
-    (hraw : ∀ x ∈ rows, Build.noRaw x = true)
+    (hraw : ∀ x ∈ rows, Build.structStreamsAlternate x = true)
+    (hnar : (∀ x ∈ rows, Build.noRaw x = true) ∨ Build.narrowRoot fields = true)
     (h : toMarrow ext fields rows = .ok arrs) :
     arrs.length = fields.length ∧
     ∃ cols : List (String × List LVal),
@@ -68,7 +76,7 @@ theorem C01_build_decode (ext : Ext) (fields : List Field) (rows : List SVal) (a
   have hs0 := hsafe root0 h0
   obtain ⟨hw, _, _, _⟩ := runRows_rows ext fields rows root0 root h0 hs0 hrun
   obtain ⟨hall, hcols, p, fs, cached, next, seen, rfl, hdec⟩ :=
-    runRows_interp ext fields rows root0 root hcov h0 hs0 hraw hrun
+    runRows_interp ext fields rows root0 root hcov h0 hs0 hraw hnar hrun
   have hfacts := Props.C03.root_facts ext fields rows _ hschema (Build.push_takeRest ext) hw
     (Lemmas.C03.WFB_StrictDict _ hw) hrun
   simp only [buildArrays, bind, Except.bind] at hba
@@ -145,7 +153,7 @@ example : ∀ arrs, toMarrow {} exFields exRows = .ok arrs → arrs.length = exF
       ∀ (i : Nat) (hi : i < exRows.length), interpRow {} exFields exRows[i] =
         .ok (.struct (LFields.ofList (cols.map fun c => (c.1, c.2.getD i .null)))) := by
   intro arrs h
-  refine C01_build_decode {} exFields exRows arrs ?_ (by decide) ?_ (by decide) h
+  refine C01_build_decode {} exFields exRows arrs ?_ (by decide) ?_ (by decide) (Or.inr (by decide +kernel)) h
   · simp [exFields, Lemmas.C03.SchemaOKF, Lemmas.C03.SchemaOK]
   · intro root0 h0
     rw [show newRoot exFields = .ok (.struct "$" 0 none
